@@ -11,7 +11,9 @@ pub(crate) use day_of_week::DayOfWeek;
 pub(crate) use month::Month;
 use year::Year;
 
-use crate::{Interrupt, error::FendError, ident::Ident, result::FResult, value::Value};
+use crate::{
+	Interrupt, error::FendError, ident::Ident, interrupt::test_int, result::FResult, value::Value,
+};
 
 #[derive(Copy, Clone, Eq, PartialEq)]
 pub(crate) struct Date {
@@ -63,7 +65,8 @@ impl Date {
 			Month::October => (0, 1),
 		};
 		let m = if self.year.is_leap_year() { ms.1 } else { ms.0 };
-		match (d1 + m + i32::from(self.day.value() - 1)) % 7 {
+		// rem_euclid: the terms above are negative for years BC
+		match (d1 + m + i32::from(self.day.value() - 1)).rem_euclid(7) {
 			0 => DayOfWeek::Sunday,
 			1 => DayOfWeek::Monday,
 			2 => DayOfWeek::Tuesday,
@@ -97,6 +100,36 @@ impl Date {
 		}
 	}
 
+	/// `next`, or an error at the last representable day
+	fn checked_next(self) -> FResult<Self> {
+		if self.year.value() == i32::MAX && self.month == Month::December && self.day.value() == 31 {
+			return Err(FendError::ValueTooLarge);
+		}
+		Ok(self.next())
+	}
+
+	/// `prev`, or an error at the first representable day
+	fn checked_prev(self) -> FResult<Self> {
+		if self.year.value() == i32::MIN && self.month == Month::January && self.day.value() == 1 {
+			return Err(FendError::ValueTooLarge);
+		}
+		Ok(self.prev())
+	}
+
+	fn checked_next_year(year: Year) -> FResult<Year> {
+		if year.value() == i32::MAX {
+			return Err(FendError::ValueTooLarge);
+		}
+		Ok(year.next())
+	}
+
+	fn checked_prev_year(year: Year) -> FResult<Year> {
+		if year.value() == i32::MIN {
+			return Err(FendError::ValueTooLarge);
+		}
+		Ok(year.prev())
+	}
+
 	pub(crate) fn prev(self) -> Self {
 		if self.day.value() > 1 {
 			Self {
@@ -120,20 +153,22 @@ impl Date {
 		}
 	}
 
-	pub(crate) fn diff_months(self, mut months: i64) -> FResult<Self> {
+	pub(crate) fn diff_months<I: Interrupt>(self, mut months: i64, int: &I) -> FResult<Self> {
 		let mut result = self;
 		while months >= 12 {
-			result.year = result.year.next();
+			test_int(int)?;
+			result.year = Self::checked_next_year(result.year)?;
 			months -= 12;
 		}
 		while months <= -12 {
-			result.year = result.year.prev();
+			test_int(int)?;
+			result.year = Self::checked_prev_year(result.year)?;
 			months += 12;
 		}
 		while months > 0 {
 			if result.month == Month::December {
 				result.month = Month::January;
-				result.year = result.year.next();
+				result.year = Self::checked_next_year(result.year)?;
 			} else {
 				result.month = result.month.next();
 			}
@@ -142,7 +177,7 @@ impl Date {
 		while months < 0 {
 			if result.month == Month::January {
 				result.month = Month::December;
-				result.year = result.year.prev();
+				result.year = Self::checked_prev_year(result.year)?;
 			} else {
 				result.month = result.month.prev();
 			}
@@ -154,7 +189,7 @@ impl Date {
 			let mut after = result;
 			if after.month == Month::December {
 				after.month = Month::January;
-				after.year = after.year.next();
+				after.year = Self::checked_next_year(after.year)?;
 			} else {
 				after.month = after.month.next();
 			}
@@ -203,7 +238,8 @@ impl Date {
 			let num_days = rhs.try_as_usize_unit(int)?;
 			let mut result = self;
 			for _ in 0..num_days {
-				result = result.next();
+				test_int(int)?;
+				result = result.checked_next()?;
 			}
 			Ok(Value::Date(result))
 		} else {
@@ -218,28 +254,36 @@ impl Date {
 			let num_days = rhs.try_as_usize_unit(int)?;
 			let mut result = self;
 			for _ in 0..num_days {
-				result = result.prev();
+				test_int(int)?;
+				result = result.checked_prev()?;
 			}
 			Ok(Value::Date(result))
 		} else if rhs.unit_equal_to("week", int)? {
 			let num_weeks = rhs.try_as_usize_unit(int)?;
 			let mut result = self;
 			for _ in 0..num_weeks {
+				test_int(int)?;
 				for _ in 0..7 {
-					result = result.prev();
+					result = result.checked_prev()?;
 				}
 			}
 			Ok(Value::Date(result))
 		} else if rhs.unit_equal_to("month", int)? {
 			let num_months = rhs.try_as_usize_unit(int)?;
 			let result = self
-				.diff_months(-i64::try_from(num_months).map_err(|_| FendError::ValueTooLarge)?)?;
+				.diff_months(
+					-i64::try_from(num_months).map_err(|_| FendError::ValueTooLarge)?,
+					int,
+				)?;
 			Ok(Value::Date(result))
 		} else if rhs.unit_equal_to("year", int)? {
 			let num_years = rhs.try_as_usize_unit(int)?;
-			let num_months = num_years * 12;
+			let num_months = num_years.checked_mul(12).ok_or(FendError::ValueTooLarge)?;
 			let result = self
-				.diff_months(-i64::try_from(num_months).map_err(|_| FendError::ValueTooLarge)?)?;
+				.diff_months(
+					-i64::try_from(num_months).map_err(|_| FendError::ValueTooLarge)?,
+					int,
+				)?;
 			Ok(Value::Date(result))
 		} else {
 			Err(FendError::ExpectedANumber)
